@@ -17,7 +17,7 @@ CHECKS = {
   category="model_checking",
   text="Solver verdict for store/load identity of every entry codec over its whole value domain (SatRange in the statement's domain and in the full 51+33-bit packing, OutPoint, SatPoint, InscriptionId, Txid, RuneId, Rune, RuneEntry, InscriptionEntry with <= 2 parents, Header), for UtxoEntry build->parse across index-flag combinations with concrete element counts and symbolic contents, and for merged() keeping both sides. Bugs here sit at bit-packing edges (2^50, 2^51, 33-bit deltas) no sampled test reaches.",
   design_ref="DESIGN.md §3 C35",
-  note="Shim parent modules supply names only (validated by running the repo's unit tests through the shim each run). UtxoEntry harnesses: <= 2 ranges, <= 3 script bytes, <= 1 inscription with offset < 2^7 (quick) / 2^14 (thorough); Rune-balance lists (encode/decode_rune_balance) are decided by the MIR engine at the integer level for 1..3 (quick) / 1..5 (thorough) entries. Entries with 2+ inscriptions and wide inscription offsets combined with other parts are outside the decided bound (CBMC runs out of memory there). redb is trusted to return stored bytes."),
+  note="Shim parent modules supply names only (validated by running the repo's unit tests through the shim each run). UtxoEntry harnesses: <= 2 ranges, <= 3 script bytes, <= 1 inscription with offset < 2^7 (quick) / 2^14 (thorough), plus 128-byte (quick) and 300-byte (thorough) symbolic scripts with a 2-byte length prefix followed by one inscription (sat index on); Rune-balance lists (encode/decode_rune_balance) are decided by the MIR engine at the integer level for 1..3 (quick) / 1..5 (thorough) entries. Entries with 2+ inscriptions and wide inscription offsets combined with other parts are outside the decided bound (CBMC runs out of memory there). redb is trusted to return stored bytes."),
  "C10": dict(
   engine="E1b-kani-lift + E2-mir2smt",
   technique="Kani/CBMC on the real RuneEntry::mintable/start/end vs. an exact-arithmetic reference; MIR symbolic execution (z3) of the real RuneUpdater::mint over a table stub and of index_runes' mint/etching ordering; native replay",
